@@ -122,6 +122,8 @@ type mvEnv struct {
 	noise *randNoise
 	rounds        int
 	restartFailed bool
+	// mid: a consensus instance started late, mid-tick, on an empty consensus database (s_mverify_mid.go)
+	mid *midCs
 }
 
 func (e *mvEnv) frontier() *nom.Momentum {
@@ -442,6 +444,11 @@ func (e *mvEnv) round(gapSlots int64) {
 	v := tx.Momentum
 	if len(blocks) > 0 {
 		c.Hit("round-with-content")
+	}
+	// the node's own production path: who gets a signed momentum out of GenerateMomentum / a pillar manager (s_mverify_produce.go)
+	e.produceFamily(prev, tsec, blocks, K)
+	if e.rounds%4 == 2 {
+		e.produceThroughPillar(prev, tsec, K)
 	}
 	other := g.PillarKeys[0]
 	for _, k := range g.PillarKeys {
@@ -778,6 +785,11 @@ func init() {
 		e.noise = startRandNoise(3)
 		defer e.noise.close()
 		defer e.closePersistent(true)
+		defer func() {
+			if e.mid != nil {
+				safely(e.mid.stop)
+			}
+		}()
 		rounds := c.N
 		if rounds < 3 {
 			rounds = 3
@@ -896,6 +908,13 @@ func init() {
 					c.Hit("delegate-done")
 				}()
 			}
+			// a consensus instance that starts to listen now, on an empty consensus database, after a weight change
+			stayInTick := false
+			if e.mid == nil {
+				if p := safely(func() { stayInTick = e.midStart() }); p != "" {
+					c.Hit("late-start-failed")
+				}
+			}
 			gap := int64(1)
 			switch c.R.Intn(10) {
 			case 0:
@@ -920,7 +939,11 @@ func init() {
 				}
 				return gap
 			}()))
+			if stayInTick && c.R.Intn(4) != 0 {
+				gap = 1
+			}
 			e.round(gap)
+			e.midCheck()
 			if (r < 60 && r%5 == 4) || r%60 == 59 || r == rounds-1 {
 				e.beforeTimeOps()
 			}
